@@ -1602,7 +1602,9 @@ func (e *compiledFunctionLiteral) compile() (prg *Program, name unistring.String
 	}
 
 	if calleeBinding != nil {
-		if !s.isDynamic() && calleeBinding.useCount() == 0 {
+		if !s.isDynamic() && calleeBinding.useCount() == 0 && !calleeBinding.inStash {
+			// (inStash: an inner function mentions the name, e.g. only assigns to it, which emits no access point;
+			// the scope was already counted as having a stash, so the binding must stay)
 			s.deleteBinding(calleeBinding)
 			calleeBinding = nil
 		} else {
